@@ -1,11 +1,12 @@
-"""C05, tie of the composition theorems (coq/Properties_C05_compose.v: c05_exposed_hpwl_is_value,
+"""C05, tie of the composition theorems (coq/Properties_C05.v: c05_exposed_hpwl_is_value,
 c05_exposed_wirelength_never_increases): the STATEMENT of the theorems evaluated on the real code.
 
 harness/dopt.cpp drives DetailedPlacer directly (best-move calls, swap / insert / shift / reordering passes with
 arbitrary window arguments) and prints, after construction and after every op, DetailedPlacer::value() and the
 circuit after exportPlacement (x y orientation of every cell, exported into a copy of the legalized circuit: what a
-Detailed callback sees).  For every such exposed state this module computes Circuit::hpwl() of the exposed circuit
-with its TRUE orientations (proved model Hpwl.hpwl = DetailedValue.hpwl_circuit, tag HP of the main driver; the
+Detailed callback sees).  For every such exposed state this module computes "Circuit::hpwl()" of the exposed circuit
+with its TRUE orientations -- NOT by calling the C++: it is the MODEL's wirelength of the exported coordinates (Hpwl.hpwl, tied to the real
+Circuit::hpwl by C09's check; the messages below say "Circuit::hpwl()" for that model value) (proved model Hpwl.hpwl = DetailedValue.hpwl_circuit, tag HP of the main driver; the
 existing check of checks/dopt_common.py uses the orientations FROZEN at construction instead) and decides the F8
 scope hypothesis orient_frozen (no cell with a row polarity has another orientation than at construction).  Then
  * in-scope state:  Circuit::hpwl() == DetailedPlacer::value()                      (c05_exposed_hpwl_is_value)
